@@ -186,6 +186,168 @@ class Xyz(Adapter):
         return bad
 
 
+# ---------------------------------------------------------------------------------------------
+def rand_bonds(rng, natom, nbond, types=(1, 2, 3, 4, 5, 6, 7, 8), hi_bias=0.5):
+    """nbond bonds (i < j or i > j, never i == j), atom indices biased towards the highest ones"""
+    out = []
+    if natom < 2:
+        return out
+    for k in range(nbond):
+        if rng.random() < hi_bias:
+            i = natom - 1 - rng.randint(0, min(natom - 1, 12))
+        else:
+            i = rng.randrange(natom)
+        j = rng.randrange(natom - 1)
+        if j >= i:
+            j += 1
+        out.append((i, j, types[k % len(types)] if rng.random() < 0.7 else rng.choice(types)))
+    return out
+
+
+def pick_nbond(rng, natom, i):
+    if natom < 2:
+        return 0
+    return rng.choice([0, 0, 1, 2, natom - 1, natom, 2 * natom, 9, 10, 99, 100, 101, rng.randint(0, 30)])
+
+
+class Sdf(Adapter):
+    key = fmt = "sdf"
+    D = 4
+    W = 10
+
+    def touching(self, q):
+        """which records of the file have a field (not the first of its record) that fills its column"""
+        out = []
+        if len(q["bonds"]) >= 100:
+            out.append("counts")
+        if any(len(dec_text(v, 4)) >= 10 for a in q["atoms"] for v in a[1:3]):
+            out.append("atom")
+        if any(j + 1 >= 100 or t >= 100 for _, j, t in q["bonds"]):
+            out.append("bond")
+        return out
+
+    def gen(self, rng, natom, i, spec=False):
+        natom = min(natom, 999)  # the 3-column count: more atoms are not a V2000 file
+        title = F.rand_title(rng)
+        digits = rng.choice([1, 2, 3, 4, 5])
+        atoms = []
+        for k in range(natom):
+            z = (i * 7 + k) % 118 + 1
+            x, y, zz = (F.rand_fx(rng, 4, digits, min(digits, 4)) for _ in range(3))
+            atoms.append((x, y, zz, z))
+        nbond = min(pick_nbond(rng, natom, i), 999)
+        bonds = rand_bonds(rng, natom, nbond)
+        q = {"title": title, "atoms": atoms, "bonds": bonds}
+        t = self.touching(q)
+        cls = f"natom={natom if natom in F.SIZE_CLASSES_THOROUGH else 'rand'}/nbond={'0' if not nbond else '<100' if nbond < 100 else '>=100'}/touching={'+'.join(t) or 'no'}"
+        return q, "-", cls
+
+    def enc(self, q):
+        return ";".join([
+            F.enc_str(q["title"]),
+            F.enc_list(q["atoms"], lambda a: ":".join([F.enc_fx(a[0]), F.enc_fx(a[1]), F.enc_fx(a[2]), str(a[3])])),
+            F.enc_list(q["bonds"], lambda b: f"{b[0]}:{b[1]}:{b[2]}"),
+        ])
+
+    def build(self, q, opts="-"):
+        from iodata import IOData
+
+        ang = _units()
+        n = len(q["atoms"])
+        co = np.array([[F.fx_float(v, 4) for v in a[:3]] for a in q["atoms"]], float).reshape(n, 3)
+        kw = {"atnums": np.array([a[3] for a in q["atoms"]], int), "atcoords": co * ang, "title": q["title"] or None}
+        if q["bonds"]:
+            kw["bonds"] = np.array(q["bonds"], int)
+        return IOData(**kw)
+
+    def quant(self, d, opts="-"):
+        ang = _units()
+        atoms = [(*(F.fx_quant(d.atcoords[k, j], 4, ang) for j in range(3)), int(d.atnums[k])) for k in range(d.natom)]
+        bonds = [] if d.bonds is None else [tuple(int(v) for v in b) for b in d.bonds]
+        return {"title": d.title if d.title is not None else "", "atoms": atoms, "bonds": bonds}
+
+    # ---- S ---------------------------------------------------------------------------------
+    def free_spec(self, rng, natom, i):
+        natom = min(natom, 999)
+        return {"seed": rng.getrandbits(48), "natom": natom, "scale": rng.choice([0.5, 5.0, 50.0, 900.0, 9000.0]),
+                "nbond": min(pick_nbond(rng, natom, i), 999)}
+
+    def free_class(self, spec):
+        return f"natom={spec['natom'] if spec['natom'] in F.SIZE_CLASSES_THOROUGH else 'rand'}/nbond={spec['nbond'] if spec['nbond'] in (0, 99, 100, 101) else 'n'}/scale={spec['scale']}"
+
+    def free_build(self, spec):
+        import random
+
+        from iodata import IOData
+
+        rng = random.Random(spec["seed"])
+        natom, scale = spec["natom"], spec["scale"]
+        kw = {
+            "atnums": np.array([rng.randint(1, 118) for _ in range(natom)]),
+            "atcoords": np.array([[rng.uniform(-scale, scale) for _ in range(3)] for _ in range(natom)]) * _units(),
+            "title": F.rand_title(rng) or None,
+        }
+        b = rand_bonds(rng, natom, spec["nbond"])
+        if b:
+            kw["bonds"] = np.array(b, int)
+        return IOData(**kw)
+
+    def free_touching(self, x):
+        """classification of an unquantised object (same predicate as `touching`)"""
+        ang = _units()
+        q = {"atoms": [tuple(F.fx_quant(v, 4, ang) for v in row) + (0,) for row in x.atcoords],
+             "bonds": [] if x.bonds is None else [tuple(int(v) for v in b) for b in x.bonds]}
+        return self.touching(q)
+
+    def compare(self, x, y):
+        bad = []
+        if not np.array_equal(x.atnums, y.atnums):
+            bad.append(("atnums", "atomic numbers differ"))
+        bad += cmp_real("atcoords", x.atcoords, y.atcoords, 4, _units())
+        xb = np.zeros((0, 3), int) if x.bonds is None else x.bonds
+        yb = np.zeros((0, 3), int) if y.bonds is None else y.bonds
+        if not np.array_equal(xb, yb):
+            bad.append(("bonds", f"{xb[:3].tolist()} -> {yb[:3].tolist()}"))
+        if (x.title or "Created with IOData") != y.title:
+            bad.append(("title", f"{x.title!r} -> {y.title!r}"))
+        return bad
+
+    def known_cause(self, x):
+        return "whitespace-split" if self.free_touching(x) else None
+
+    # ---- C03 -------------------------------------------------------------------------------
+    def spec_gen(self, rng, natom, i):
+        q, opts, cls = self.gen(rng, natom, i)
+        if not q["title"]:
+            q["title"] = "spec"
+        return q, opts, cls
+
+    def enc_spec(self, m):
+        return self.enc(m)
+
+    def spec_obj(self, m):
+        return m
+
+    def spec_write(self, m, opts):
+        """independent writer from the CTfile V2000 column table"""
+        sym = _symbols()
+        L = [m["title"], "", ""]
+        L.append(str(len(m["atoms"])).rjust(3) + str(len(m["bonds"])).rjust(3) + "  0     0  0  0  0  0  0999 V2000")
+        for x, y, z, zn in m["atoms"]:
+            L.append(dec_text(x, 4).rjust(10) + dec_text(y, 4).rjust(10) + dec_text(z, 4).rjust(10) + " " + sym[zn].ljust(3)
+                     + " 0" + "  0" * 11)
+        for a, b, t in m["bonds"]:
+            L.append(str(a + 1).rjust(3) + str(b + 1).rjust(3) + str(t).rjust(3) + "  0" * 4)
+        L += ["M  END", "$$$$"]
+        return ("\n".join(L) + "\n").encode("latin-1")
+
+    def spec_deviation(self, m):
+        return "whitespace-split" if self.touching(m) else None
+
+    def spec_diff(self, m, line):
+        return "mismatch" if line.startswith("ok") else line.replace(" ", "-")
+
+
 def dec_text(fx, d):
     """decimal text of a quantised number, from integer arithmetic only"""
     neg, mag = fx
@@ -206,4 +368,4 @@ def cmp_real(name, a, b, d, unit=1.0):
     return []
 
 
-ADAPTERS = {a.key: a for a in [Xyz()]}
+ADAPTERS = {a.key: a for a in [Xyz(), Sdf()]}
